@@ -7,7 +7,8 @@ VARIABLE c
 Chains == UNION {[1..n -> Wrappers] : n \in 0..MaxDepth}
 \* name: how the member that carries the trigger is called: plain (f) / py_keyword (`from`: Python writes from_ and an alias, which
 \* needs Field whatever the type is) / renamed (serde(rename): an alias again) / kw_all (EVERY member of the item is a keyword, no other
-\* member asks for the helper)
+\* member asks for the helper) / kotlin_override (the member carries typeshare(kotlin(type = "String")): an override for one language
+\* changes nothing for the others)
 Init == c \in [trigger : Triggers, chain : Chains, pos : Positions, second : Triggers \cup {"none"}, mode : Modes, name : Names]
 Next == UNCHANGED c
 \* the deepest chains are explored with the trigger alone, folder mode with chains of length <= 1 (the helper logic looks at
